@@ -13,8 +13,8 @@ theorem Frame.refl (c : Core) : Frame c c := ⟨rfl, rfl, rfl⟩
 theorem Frame.trans {a b c : Core} (h1 : Frame a b) (h2 : Frame b c) : Frame a c :=
   ⟨h2.modules.trans h1.modules, h2.notebook.trans h1.notebook, h2.swStart.trans h1.swStart⟩
 
-theorem addCands_frame (P : Params) (cb : Nat → CbRet) (b : Block) (ks : List Cand) (c : Core) (w : World) :
-    Frame c (addCands P cb b ks c w).1 := by
+theorem addCands_frame (P : Params) (cb : Nat → CbRet) (fast : Bool) (b : Block) (ks : List Cand) (c : Core) (w : World) :
+    Frame c (addCands P cb fast b ks c w).1 := by
   induction ks generalizing c w with
   | nil => exact Frame.refl c
   | cons k ks ih =>
@@ -78,8 +78,8 @@ theorem blockLoop_cons_go_err {P : Params} {cb : Nat → CbRet} {set : Settings}
   rw [blockLoop_cons_go h, hb]
   cases e <;> first | exact absurd rfl he | rfl
 
-theorem addCands_result (P : Params) (cb : Nat → CbRet) (b : Block) (ks : List Cand) (c : Core) (w : World) :
-    (addCands P cb b ks c w).2.2.2 = .success ∨ (addCands P cb b ks c w).2.2.2 = .tooManyMatches := by
+theorem addCands_result (P : Params) (cb : Nat → CbRet) (fast : Bool) (b : Block) (ks : List Cand) (c : Core) (w : World) :
+    (addCands P cb fast b ks c w).2.2.2 = .success ∨ (addCands P cb fast b ks c w).2.2.2 = .tooManyMatches := by
   induction ks generalizing c w with
   | nil => left; rfl
   | cons k ks ih =>
@@ -89,16 +89,16 @@ theorem addCands_result (P : Params) (cb : Nat → CbRet) (b : Block) (ks : List
       | exact ih _ _
       | (right; rfl)
 
-theorem addCands_result_ne (P : Params) (cb : Nat → CbRet) (b : Block) (ks : List Cand) (c : Core) (w : World) :
-    (addCands P cb b ks c w).2.2.2 ≠ .blockNotReady := by
-  rcases addCands_result P cb b ks c w with h | h <;> simp [h]
+theorem addCands_result_ne (P : Params) (cb : Nat → CbRet) (fast : Bool) (b : Block) (ks : List Cand) (c : Core) (w : World) :
+    (addCands P cb fast b ks c w).2.2.2 ≠ .blockNotReady := by
+  rcases addCands_result P cb fast b ks c w with h | h <;> simp [h]
 
 theorem scanBlock_result (P : Params) (cb : Nat → CbRet) (set : Settings) (b : Block) (c : Core) (w : World) :
     (scanBlock P cb set b c w).2.2.2 ≠ .blockNotReady := by
   simp only [scanBlock]
   repeat' split
   all_goals first
-    | exact addCands_result_ne _ _ _ _ _ _
+    | exact addCands_result_ne _ _ _ _ _ _ _
     | (simp; done)
 
 theorem blockLoop_frame (P : Params) (cb : Nat → CbRet) (set : Settings) (rest : List Block) (sched : List Act)
